@@ -161,6 +161,11 @@ func transformC10(t *rapid.T, s *Spec) []string {
 
 func genC10() *rapid.Generator[*Spec] {
 	return rapid.Custom(func(t *rapid.T) *Spec {
+		if rapid.IntRange(0, 99).Draw(t, "sharedfamily") < 20 {
+			s := genShared(false).Draw(t, "shared")
+			s.Note += " C10"
+			return s
+		}
 		s := GenWF(WFOpts{NoFaults: true, Names: 20}).Draw(t, "base")
 		applied := transformC10(t, s)
 		s.Note = strings.TrimSpace(s.Note + " C10 " + strings.Join(applied, "+"))
